@@ -53,8 +53,16 @@ def run(chk, repo):
            path=bad.describe(f.module.relpath) if bad else None, fn=f.qual)
     seqw = [norm_stmt(w[2]) for w in G.writes_in(loop.body) if isinstance(w[2], ast.Assign) and unparse(w[2].targets[0]).endswith('.seq')]
     chk.ob('C18.a', 'no sequence is assigned while splitting', repo.loc(f, loop), not seqw, f"sequence writes {seqw}", key=SPLIT + '::seq-unchanged', fn=f.qual)
-    desc = [n for n in loop.body if isinstance(n, ast.Assign) and unparse(n.targets[0]) == 'peptide.description']
-    ok = len(desc) == 1 and unparse(desc[0].value) == 'delimiter.join([str(x) for x in peptide_infos])'
+    from sa import sem as _s18
+    from sa.canon import _Expr as _CanonExpr18
+    pv18 = loop.target.id if isinstance(loop.target, ast.Name) else 'peptide'
+    desc = [n for n in loop.body if isinstance(n, ast.Assign) and unparse(n.targets[0]) == f'{pv18}.description']
+    infos18 = [n.targets[0].id for n in loop.body if isinstance(n, ast.Assign) and isinstance(n.targets[0], ast.Name) and call_name(n.value) == 'from_variant_peptide']
+    ok = len(desc) == 1 and len(infos18) == 1
+    if ok:
+        v18 = _s18.expand_names(f.node, desc[0], desc[0].value, allow_calls=('join', 'str'), keep=(infos18[0],))
+        v18 = unparse(_s18.comp_alpha(_CanonExpr18().visit(ast.fix_missing_locations(v18))))
+        ok = bool(re.match(r'^[\w.]+\.join\(\(str\(_c0\) for _c0 in ' + re.escape(infos18[0]) + r'\)\)$', v18))
     chk.ob('C18.a', 'header rewritten from ALL parsed entries (every entry kept)', repo.loc(f, loop), ok,
            'the header is not rebuilt from every entry of peptide_infos', key=SPLIT + '::all-entries', fn=f.qual)
 
@@ -145,10 +153,25 @@ def run(chk, repo):
     chk.ob('C18.d', 'both pass the wildcard map', s.where, ('wildcard_map' in k1) == ('wildcard_map' in k2),
            f"splitFasta passes wildcard_map, summarizeFasta does not (arguments {sorted(k2)}): with a wildcard source order (e.g. 'circRNA-+', 'Alt-*') the summary rows "
            "are not the databases splitFasta writes", key=SUMM + '::wildcard_map', fn=s.qual)
-    t1 = [norm_stmt(x) for x in ast.walk(f.node) if isinstance(x, (ast.Expr, ast.Assign))]
-    t2 = [norm_stmt(x) for x in ast.walk(s.node) if isinstance(x, (ast.Expr, ast.Assign))]
-    ok = 'peptide_infos.sort()' in t1 and 'sources = peptide_infos[0].sources' in t1 and 'peptide_labels.sort()' in t2 and \
-        'sources = frozenset(peptide_labels[0].sources)' in t2
+    def sorted_first(fn):
+        """the list returned by from_variant_peptide is sorted in place before its element [0] supplies `.sources`, and no other element does"""
+        names = [n.targets[0].id for n in ast.walk(fn) if isinstance(n, ast.Assign) and isinstance(n.targets[0], ast.Name) and call_name(n.value) == 'from_variant_peptide']
+        if len(names) != 1:
+            return False
+        L = names[0]
+        order = {}          # pre-order (textual execution order) index of every node
+
+        def number(n):
+            order[id(n)] = len(order)
+            for c in ast.iter_child_nodes(n):
+                number(c)
+        number(fn)
+        stmts = [n for n in ast.walk(fn) if isinstance(n, ast.stmt)]
+        sort_l = [order[id(n)] for n in stmts if (isinstance(n, ast.Expr) and unparse(n.value) == f'{L}.sort()') or
+                  (isinstance(n, ast.Assign) and unparse(n.targets[0]) == L and unparse(n.value) == f'sorted({L})')]
+        uses = [x for x in ast.walk(fn) if isinstance(x, ast.Attribute) and x.attr == 'sources' and isinstance(x.value, ast.Subscript) and unparse(x.value.value) == L]
+        return len(sort_l) == 1 and bool(uses) and all(unparse(u.value.slice) == '0' and order[id(u)] > sort_l[0] for u in uses)
+    ok = sorted_first(f.node) and sorted_first(s.node)
     chk.ob('C18.d', 'both sort the entries and take the sources of the first', s.where, ok, 'sort / first-entry selection differs', key='aa::sources-first')
 
     # ------------------------------------------------------------------ e
@@ -183,16 +206,59 @@ def run(chk, repo):
     chk.rule('C18.f', 'intragenic fusion: ids of the first transcript are kept', 1)
     fv = repo.func('aa.VariantPeptideLabel:VariantPeptideInfo.from_variant_peptide')
     chk.uses(fv)
-    fus = [n for n in walk_no_nested(fv.node) if isinstance(n, ast.If) and unparse(n.test) == 'second_gene_id != first_gene_id']
-    ok = False
-    if len(fus) == 1:
-        els = [norm_stmt(x) for x in fus[0].orelse]
-        ok = len(els) == 1 and 'var_ids[first_gene_id]' in els[0].split('=')[0] and 'var_ids[first_gene_id] +' in els[0] and 'second_variants' in els[0] and \
-            [norm_stmt(x) for x in fus[0].body] == ['var_ids[second_gene_id] = variant_id.second_variants']
-    # the dict literal must not contain both genes as literal keys (same key would overwrite)
-    dl = [d for d in ast.walk(fv.node) if isinstance(d, ast.Dict) and any(unparse(k) == 'second_gene_id' for k in d.keys if k is not None)
-          and any(unparse(k) == 'first_gene_id' for k in d.keys if k is not None)]
-    chk.ob('C18.f', 'same-gene fusion merges second-transcript ids into the first gene\'s list instead of overwriting it', fv.where, ok and not dl,
+    # value based: G1 / G2 are the genes of the two fusion transcripts, whatever locals hold them.  A binding under the key G2 may only
+    # happen when the genes are known to differ (otherwise it overwrites G1's labels), and when they are equal G1's list takes the
+    # second transcript's labels as well.
+    from sa import sem as _sf
+    nfv = _sf.nf(repo, fv)
+    chf = _sf.block_chains(nfv)
+    G1t, G2t = 'tx2gene[variant_id.first_tx_id]', 'tx2gene[variant_id.second_tx_id]'
+
+    def exp_t(st, e):
+        return unparse(_sf.expand_names(nfv, st, e, chains=chf, depth=4))
+    sites = []
+    for st in ast.walk(nfv):
+        if not (isinstance(st, ast.stmt) and _sf.own_stmt(st)):
+            continue
+        def dicts_under(e, conds):
+            # (dict display, [(conditional-expression test, polarity)] it is evaluated under)
+            if isinstance(e, ast.IfExp):
+                yield from dicts_under(e.test, conds)
+                yield from dicts_under(e.body, conds + [(e.test, True)])
+                yield from dicts_under(e.orelse, conds + [(e.test, False)])
+                return
+            if isinstance(e, ast.Dict):
+                yield e, conds
+            for c_ in ast.iter_child_nodes(e):
+                yield from dicts_under(c_, conds)
+        for d, conds in dicts_under(st, []):
+            for k, v in zip(d.keys, d.values):
+                if k is not None:
+                    sites.append((st, exp_t(st, k), exp_t(st, v), conds))
+        if isinstance(st, ast.Assign) and isinstance(st.targets[0], ast.Subscript):
+            sites.append((st, exp_t(st, st.targets[0].slice), exp_t(st, st.value), []))
+    facts_at = {id(st): fx for st, fx in _sf.facts_where(nfv, lambda st: any(st is s_[0] for s_ in sites))}
+
+    def genes_equal(site):
+        st = site[0]
+        fx = facts_at.get(id(st))
+        lits = list(_sf.sure_literals(fx)) if fx is not None else []
+        for tst, pol_ in site[3]:
+            lits += [(a_, p_) for a_, p_ in (_sf.conj_literals(tst, pol_) or set())]
+        for t, pol in lits:
+            try:
+                e = ast.parse(t, mode='eval').body
+            except SyntaxError:
+                continue
+            if isinstance(e, ast.Compare) and len(e.ops) == 1 and isinstance(e.ops[0], (ast.Eq, ast.NotEq)):
+                a, b = exp_t(st, e.left), exp_t(st, e.comparators[0])
+                if {a, b} == {G1t, G2t}:
+                    return pol if isinstance(e.ops[0], ast.Eq) else not pol
+        return None
+    g2_sites = [s_ for s_ in sites if s_[1] == G2t]
+    g1_merge = [s_ for s_ in sites if s_[1] == G1t and 'second_variants' in s_[2] and genes_equal(s_) is True]
+    ok = bool(g2_sites) and all(genes_equal(s_) is False for s_ in g2_sites) and len(g1_merge) >= 1
+    chk.ob('C18.f', 'same-gene fusion merges second-transcript ids into the first gene\'s list instead of overwriting it', fv.where, ok,
            'var_ids for a fusion is built so that the second gene key can overwrite the first when both transcripts belong to one gene: the fusion id and '
            'first-transcript ids are lost before sources are looked up (peptide assigned to the wrong / empty source)', key=fv.qual + '::intragenic-fusion', fn=fv.qual)
 
@@ -208,7 +274,11 @@ def run(chk, repo):
             chk.ob('C18.g', f"'{norm_stmt(n.ast)}' only when the key is absent", repo.loc(wm, n.ast), fx.get(f"{key_} in wildcard_map") is False,
                    f"'{norm_stmt(n.ast)}' overwrites an existing entry: a lower-priority wildcard pattern takes over combinations already claimed by a higher-priority one",
                    key=wm.qual + f'::insert-if-absent::{key_}', fn=wm.qual)
-    order_sorted = any(isinstance(l, ast.For) and unparse(l.iter) == 'sorted(self.order, key=lambda x: self.order[x])' for l in walk_no_nested(wm.node))
+    for c_ in G.find_calls(wm.node, 'setdefault'):
+        if unparse(c_.func.value) == 'wildcard_map' and len(c_.args) == 2:
+            chk.ob('C18.g', f"'{unparse(c_)[:60]}' inserts only when the key is absent", repo.loc(wm, c_), True, fn=wm.qual)
+    order_sorted = any(isinstance(l, ast.For) and re.sub(r'lambda \w+: self\.order\[\w+\]', 'lambda x: self.order[x]', unparse(l.iter)) == 'sorted(self.order, key=lambda x: self.order[x])'
+                       for l in walk_no_nested(wm.node))
     chk.ob('C18.g', 'patterns are expanded in priority order', wm.where, order_sorted, 'wildcard patterns are not expanded in source-order priority', key=wm.qual + '::priority-order', fn=wm.qual)
 
     # ------------------------------------------------------------------ h
